@@ -22,7 +22,7 @@ RULE = ("each case is a seeded batch of quaternions (and angular velocities) run
 ASSUMPTIONS = ["float mode: |P| in [1e-100, 1e100] so that P.P neither under- nor overflows (float64 limit of the stated domain)",
                "float tolerance 64*eps*(1+component dynamic range effect) on orthonormality etc.; derivative by complex step",
                "exact mode: module constants eye3 / ax2skew_a re-bound to integer-valued object arrays by the harness so that no float literal enters; helpers that multiply by a float literal (skew2ax) are replaced by the harness' own extraction"]
-REQUIRED_MONITORS = ["float.orthonormal", "float.scale", "float.homomorphism", "float.TTinv", "float.spin", "float.derivative",
+REQUIRED_MONITORS = ["float.orthonormal", "float.scale", "float.homomorphism", "float.TTinv", "float.spin", "float.derivative", "float.representation",
                      "exact.orthonormal", "exact.scale", "exact.homomorphism", "exact.TTinv", "exact.spin", "exact.derivative", "algebra"]
 META = {
     "level_text": "Exploration: the real kernel functions are executed on seeded hostile float inputs and, in exact mode, on Fraction-valued object arrays where every identity is decided with == (no tolerance); derivatives are obtained by executing the real map on dual numbers over Fraction. Held on the samples generated; not a symbolic proof.",
@@ -215,7 +215,7 @@ def run_float(ctx, n):
     rng = ctx.rng
     eps = np.finfo(float).eps
     first = None
-    for _ in range(n):
+    for b in range(n):
         P, cls, lcls = _quat(rng)
         if first is None:
             first = P.tolist()
@@ -302,6 +302,13 @@ def run_float(ctx, n):
             if not (np.array_equal(a1, a2) and np.array_equal(b1, b2)):
                 ctx.violation(name, "repeated evaluation at the same quaternion returns different values (depends on the call history)",
                               {"P": Pn, "err_normalize_true": np.abs(a1 - a2).max(), "err_normalize_false": np.abs(b1 - b2).max()})
+        # representation: the same quaternion / quaternion pair as strided, negatively strided or read-only arrays
+        if b % 8 == 0:
+            from vlib.oracles import representation_check
+            Qm = rng.normal(size=4)
+            calls = [(name, getattr(R, name), (Pm,), {"normalize": bool(nz_)}) for name in ("Exp_SO3_quat", "Exp_SO3_quat_P", "T_SO3_quat", "T_SO3_inv_quat") for nz_ in (True, False)]
+            calls.append(("quatprod", R.quatprod, (Pm, Qm), {}))
+            representation_check(ctx, calls, mon="float.representation")
         # spin: P_dot = T_inv(P) w ; body spin of Exp(P(t)) must be w
         w = rng.normal(size=3) * loguniform(rng, 1e-6, 1e6)
         Pdot = R.T_SO3_inv_quat(Pm) @ w
